@@ -32,7 +32,13 @@ class MyBase(BaseException):
     pass
 
 
-CLASSES = ['plain', 'needs_args', 'chained', 'pretraced', 'base']
+class Falsy(Exception):
+    """an exception that is false in a boolean context (a container-like error with no items)"""
+    def __len__(self):
+        return 0
+
+
+CLASSES = ['plain', 'needs_args', 'chained', 'pretraced', 'base', 'falsy']
 
 
 def make_exc(kind, vid):
@@ -40,6 +46,8 @@ def make_exc(kind, vid):
         e = NeedsArgs('x', vid)
     elif kind == 'base':
         e = MyBase('base %d' % vid)
+    elif kind == 'falsy':
+        e = Falsy('falsy %d' % vid)
     else:
         e = Plain('exc %d' % vid)
     e.vid = vid
@@ -56,7 +64,7 @@ def innermost_function(exc):
     return name
 
 
-def run_program(excutils, prog, flag0, kind, post_mode='force'):
+def run_program(excutils, prog, flag0, kind, post_mode='force', explicit_logger=True):
     """Compile the body program to real Python and execute it."""
     logger = FakeLogger()
     E1 = make_exc(kind, 1)
@@ -122,7 +130,8 @@ def run_program(excutils, prog, flag0, kind, post_mode='force'):
         except BaseException as active:
             entry = innermost_function(active)
             entry_state = (active.__cause__, active.__suppress_context__, active.args)
-            with excutils.save_and_reraise_exception(reraise=flag0, logger=logger) as ctx:
+            kw = {'logger': logger} if explicit_logger else {}
+            with excutils.save_and_reraise_exception(reraise=flag0, **kw) as ctx:
                 ctx_box.append(ctx)
                 body(ctx)
     except BaseException as e:       # noqa: the harness must see everything
@@ -131,7 +140,21 @@ def run_program(excutils, prog, flag0, kind, post_mode='force'):
     # ExcHelpers models it as the code behaves: `saved` persists until force_reraise consumes it)
     post = None
     second = None
-    if ctx_box and post_mode == 'reenter':
+    redrop = None
+    if post_mode == 'redrop':
+        # the SAME exception object handled once more, by a fresh context whose body fails: it is dropped - and
+        # reported - like any other (what happened to the object before does not matter)
+        lg2 = FakeLogger()
+        try:
+            try:
+                raise E1
+            except BaseException:
+                with excutils.save_and_reraise_exception(logger=lg2):
+                    raise make_exc('plain', 6)
+            redrop = (0, lg2.errors)
+        except BaseException as e:   # noqa
+            redrop = (getattr(e, 'vid', -1), lg2.errors)
+    elif ctx_box and post_mode == 'reenter':
         E5 = make_exc('plain', 5)
         try:
             try:
@@ -160,7 +183,7 @@ def run_program(excutils, prog, flag0, kind, post_mode='force'):
     # "the same object": also unchanged - its explicit cause (an exception in its own right: losing it is losing an
     # exception) and its arguments; display flags such as __suppress_context__ are not compared
     intact = (not same_object) or (propagated.__cause__ is entry_state[0] and propagated.args == entry_state[2])
-    return {'propagates': vid, 'logged': logger.errors, 'is_original_object': same_object, 'intact': intact, 'post': post, 'second': second,
+    return {'propagates': vid, 'logged': logger.errors, 'is_original_object': same_object, 'intact': intact, 'post': post, 'second': second, 'redrop': redrop, 'explicit_logger': explicit_logger,
             'innermost': origin, 'entry_innermost': entry, 'reraise_frames': reraises, 'type': type(propagated).__name__ if propagated is not None else None}
 
 
@@ -181,14 +204,17 @@ def run(ctx):
     outcomes = {}
     for rec in res.records:
         for kind in CLASSES:
-            got = run_program(excutils, rec['prog'], rec['flag0'], kind, 'reenter' if (n % 2) else 'force')
+            got = run_program(excutils, rec['prog'], rec['flag0'], kind, ('force', 'reenter', 'redrop')[n % 3],
+                              explicit_logger=(n % 5 != 4))
             n += 1
             want_p = rec['propagates']
             problems = []
             if got['propagates'] != want_p and not (want_p == 4):
                 problems.append('propagates')
-            if got['logged'] != rec['logged']:
+            if got['explicit_logger'] and got['logged'] != rec['logged']:
                 problems.append('logged')
+            if got['redrop'] is not None and got['redrop'] != (6, 1):
+                problems.append('same-exception-dropped-again')
             if want_p == 1 and not got['is_original_object']:
                 problems.append('not-same-object')
             if want_p == 1 and not rec['direct'] and got['innermost'] != got['entry_innermost']:
